@@ -486,6 +486,14 @@ func callSSA(w *world, caller *frame, callpos token.Pos, fn *ssa.Function, args 
 		fn:     fn,
 	}
 	info := w.p.fnInfo(fn)
+	if w.stubs != nil {
+		if st, ok := w.stubs[info.name]; ok {
+			if w.natives != nil {
+				w.natives["harness-stub:"+info.name] = true
+			}
+			return call(w, caller, callpos, st, args)
+		}
+	}
 	if info.ext != nil {
 		if w.natives != nil {
 			w.natives[info.name] = true
